@@ -13,6 +13,10 @@ NA = [
  ("C17", "single-threaded histories on a value type compared with an ideal byte string: no I/O, time, fault or concurrency in the property"),
 ]
 CHECKS = {
+ "C02": dict(engine="netsim/wire", section="3 (C02)",
+   text="Seeded hostile-transport simulation into every gateway input path (binary, templating, zlib, text, raw, SLIP, WebSocket, C mini gateway, both packet tunnels): a real sender's valid stream is rewritten (boundary values in every length/count/type word, flips, truncations incl. inside a consistently framed body, garbage, splices) and fed to a real receiver under a seeded chunk schedule, in an ASan+UBSan build with exact-size frame copies; oracle = no sanitizer report, no hang/no-progress loop, delivered Messages well-formed, receiver reusable after Reset(), allocation <= 256N+1MiB per N-byte frame. Exploration over the seeds run; scoped to parsers reachable through a transport.",
+   note="Trusts: ASan/UBSan as the memory-safety oracle (alignment checks off); uninitialised reads are not visible to them; direct calls of Unflatten on caller-supplied buffers and the MicroMessage codec are out of scope; not coverage-guided.",
+   technique="deterministic simulation with fault injection: seeded structure-aware corruption/truncation/splicing of real gateway streams, fed under seeded segmentation to real receivers under ASan/UBSan with watchdog, reuse and allocation-bound oracles"),
  "C03": dict(engine="netsim/wire", section="3 (C03)",
    text="Seeded search over gateway pairs on a simulated byte stream: every gateway type (binary in 10 encodings with mid-stream encoding changes, templating, text, raw, SLIP, WebSocket pair, C mini<->C++), chunk schedules from whole-buffer down to 1 byte with would-blocks and framing/buffer-boundary sizes, arbitrary interleavings of enqueue/DoOutput(max)/DoInput(max); prefix oracle after every call, equality and bounded-step liveness after the drain. Exploration: a clean batch is evidence over the seeds run, not a proof.",
    note="Trusts: the simulated stream is reliable/ordered; comparison is by re-serialised bytes (so Message::Flatten is trusted to be injective); UBSan alignment checks off. ASan+UBSan build of the real sources with MUSCLE_VERIF_HOOKS.",
